@@ -134,7 +134,7 @@ func cmdMapRun(args []string) {
 			for k, op := range ops {
 				w.ExecSilent(op)
 				fl, rc := w.boundaryFlags("m")
-				wr.Write(map[string]any{"t": t, "n": k + 1, "flags": fl, "rc": rc})
+				wr.Write(map[string]any{"t": t, "n": k + 1, "flags": fl, "rc": rc, "ic": append([]int{}, lastInnerCounts...)})
 			}
 			return
 		}
